@@ -42,6 +42,7 @@ var stmtTargets = map[string][]string{
 	"/repo/storage/table/fsm/snapshot_snapshot.go":   {"recover"},
 	"/repo/storage/table/fsm/snapshot_checkpoint.go": {"recover"},
 	"/repo/storage/cluster/view.go":                  {"update", "shardInfo"}, // mergeShardInfo is a pure function of its value arguments,
+	"/repo/cmd/common.go":                            {"authFunc"},            // the closure every call of a protected service runs (C17)
 }
 
 // instrument inserts `vp.Point("base:line"); ` in front of every statement that is an element of a
